@@ -119,6 +119,13 @@ def observe_vector(ver, s):
     ok, o = obs.call(L.CLS[ver], s)
     if not ok:
         return {"error": type(o).__name__, "message": str(o)}
+    try:
+        return _observe_object(L, ver, s, o)
+    except Exception as e:  # an accessor that raises is an observation, not a harness failure
+        return {"accessor_error": type(e).__name__, "message": str(e)[:200]}
+
+
+def _observe_object(L, ver, s, o):
     r = {"scores": list(o.scores()), "severities": list(o.severities()), "clean": o.clean_vector(), "rh": o.rh_vector(),
          "hash_eq": o == L.CLS[ver](s)}
     if ver in ("2", "3"):
@@ -144,8 +151,12 @@ def observe(inputs):
         ok, res = obs.call(L.parser.parse_cvss_from_text, t)
         # in the order returned, with the string each object was built from (which of two
         # equal spellings survives is part of the output)
-        out["texts"].append([[type(o).__name__, o.clean_vector(), list(o.scores()), o.as_json()["vectorString"]] for o in res] if ok
-                            else {"error": type(res).__name__})
+        def one(o):
+            try:
+                return [type(o).__name__, o.clean_vector(), list(o.scores()), o.as_json()["vectorString"]]
+            except Exception as e:
+                return {"accessor_error": type(e).__name__}
+        out["texts"].append([one(o) for o in res] if ok and isinstance(res, list) else {"error": type(res).__name__})
     for vt, am, answers in inputs["dialogues"]:
         r = DLG.run_dialogue(vt, am, list(answers), limit=len(answers) + 5)
         out["dialogues"].append({"ret": r["ret"], "exc": r["exc"], "reads": r["reads"], "out_len": len(r["out"])})
